@@ -633,6 +633,10 @@ candidate_check_pair_fail (NiceStream *stream, NiceAgent *agent, CandidateCheckP
 
   component = nice_stream_find_component_by_id (stream, p->component_id);
   SET_PAIR_STATE (agent, p, NICE_CHECK_FAILED);
+  /* A pair that fails after having succeeded (403, or a timed-out recheck) is
+   * not on the valid list any more: the nomination code expects every valid
+   * pair to be SUCCEEDED or DISCOVERED. */
+  p->valid = FALSE;
   priv_free_all_stun_transactions (p, component);
 
   /* Ensure related succeeded-discovered pairs change to state failed
@@ -647,6 +651,7 @@ candidate_check_pair_fail (NiceStream *stream, NiceAgent *agent, CandidateCheckP
     nice_debug ("Agent %p : related discovered pair %p of pair %p "
         "will fail too.", agent, p->discovered_pair, p);
     SET_PAIR_STATE (agent, p->discovered_pair, NICE_CHECK_FAILED);
+    p->discovered_pair->valid = FALSE;
   }
 }
 
